@@ -15,9 +15,11 @@
     attrs_has_iff_get attrs_slice_spec attrs_sub_nodup attrs_or_sub_nodup attrs_totuple_append
     qname_pickle_roundtrip qname_parse ns_getitem_in
     stripentities_keepxml_escape striptags_no_tag attrs_get_or escape2_append unescape_no_entity
+    mod2_percent_s
 -/
 import Genshi.Lemmas.Escape
 import Genshi.Lemmas.MarkupOps
+import Genshi.Lemmas.MarkupFmt
 namespace Genshi.Props.C18
 open Genshi.Escape Genshi.Str
 
@@ -598,6 +600,35 @@ theorem unescape_no_entity (s : List Char) (h : '&' ∉ s) :
     unescapeM s = (.str, s) ∧ unescapeFn (.markup s) = some (.str, s) := by
   simp [unescapeM, unescapeFn, unescape_no_amp s h]
 
+/-- On the concrete format string `l0 %s l1 %s … ln` (no `%` in the literals), in both
+    implementations: `Markup(fmt) % (x1, …, xn)` is the Markup `l0 x1' l1 … xn' ln` where `xi'` is
+    `xi` escaped once iff it was not safe; and `Markup('l0 %s l1') % x` likewise for one value. -/
+theorem mod2_percent_s (i : Impl) (lits : List (List Char)) (os : List Arg)
+    (hl : ∀ l ∈ lits, '%' ∉ l) (hlen : lits.length = os.length + 1) (hos : ∀ x ∈ os, x.stringy = true) :
+    MarkupOps.mod i (escOf i) (fmtOf lits) (.tup os) =
+      .ok (.markup, interleave lits (os.map (once2 true))) ∧
+    (∀ a, os = [a] → MarkupOps.mod i (escOf i) (fmtOf lits) (.one a) =
+      .ok (.markup, interleave lits [once2 true a])) := by
+  constructor
+  · unfold MarkupOps.mod
+    rw [parseFmt_fmtOf lits _ [] hl (Nat.lt_succ_self _)]
+    dsimp only
+    rw [mapM_escapeOp i true os hos]
+    simp only [liftErr, List.reverse_nil]
+    have := fmtPos_piecesOf lits [] (os.map (once2 true)) (by simpa using hlen)
+    simp only [List.nil_append] at this
+    simp [this, bind, Except.bind, pure, Except.pure]
+  · intro a ha
+    subst ha
+    unfold MarkupOps.mod
+    rw [parseFmt_fmtOf lits _ [] hl (Nat.lt_succ_self _)]
+    dsimp only
+    rw [escapeOp_string i true a (hos a (by simp))]
+    simp only [liftErr, List.reverse_nil]
+    have := fmtPos_piecesOf lits [] [once2 true a] (by simpa using hlen)
+    simp only [List.nil_append] at this
+    simp [this, bind, Except.bind, pure, Except.pure]
+
 end Wave4
 
 /-! ### non-vacuity -/
@@ -643,6 +674,8 @@ example : attrsSlice [(['a'], ['1']), (['b'], ['2']), (['c'], ['3'])] (some (-2)
 example : attrsTotuple [(['a'], ['1']), (['b'], ['2', '3'])] = ['1', '2', '3'] := by decide
 example : Attrs.get (Attrs.or [(['h'], ['#']), (['t'], ['x'])] [(['h'], some ['1']), (['n'], some ['1']), (['h'], some ['2']), (['t'], none)]) ['h'] = some ['2'] := by decide
 example : striptags ['<', '<', 'a', '>', 'b', '<'] = ['b', '<'] := by decide
+example : MarkupOps.mod .c (escOf .c) (fmtOf [['<', 'b', '>'], ['|'], []]) (.tup [.str ['<'], .msub ['<']]) =
+    .ok (.markup, ['<', 'b', '>', '&', 'l', 't', ';', '|', '<']) := by decide +kernel
 end Wave4Examples
 
 end Genshi.Props.C18
